@@ -934,6 +934,10 @@ func (e *CEnv) call(ex *CExpr) Value {
 		// utf8enc(r): the octets bytes.Buffer.WriteRune / string(rune) produce for r
 		need(1)
 		return App("utf8enc", SBytes, intArg(0))
+	case "runes":
+		// runes(s): the array of runes that []rune(s) yields (its length is runecount(s))
+		need(1)
+		return App("runes", SArr(SInt, SInt), bytesArg(0))
 	case "runeat":
 		// runeat(s, i) / runelen(s, i): the rune that `for range s` yields at byte index i and its width in octets
 		need(2)
